@@ -478,12 +478,31 @@ def run_jobs(check, jobs, on_harness_fail=None):
     """Run IeeeJob / HarnessJob instances in parallel, add their obligations, adjudicate failures."""
     from .core import pmap
     obs = pmap(lambda j: j.run(), jobs)
+    # an obligation that passed on the unchanged tree but now times out: native, seeded refutation search
+    # (only ever used to confirm a violation; if nothing is found the obligation stays undecided -> exit 2)
+    timed = [(j, ob) for j, ob in zip(jobs, obs) if ob.status == 'undecided' and 'timeout' in ob.detail
+             and isinstance(j, IeeeJob) and j.predicate is not None][:8]
+
+    def refute(jo):
+        j, ob = jo
+        ob.cex = {}
+        path, tail, harmless = j.adjudicate()
+        return path, tail
+    for (j, ob), (path, tail) in zip(timed, pmap(refute, timed, workers=8)):
+        if tail == '':
+            ob.status = 'failed'
+            ob.detail += ' | verifier timed out; seeded native refutation search found a failing input'
+            j._adjudicated = (path, tail, False)
     failed = [(j, ob) for j, ob in zip(jobs, obs) if ob.status == 'failed' and isinstance(j, IeeeJob)]
     budget = 16
     adj = {}
-    for (j, ob), res in zip(failed[:budget], pmap(lambda jo: jo[0].adjudicate(), failed[:budget], workers=8)):
+    todo = [(j, ob) for j, ob in failed if not hasattr(j, '_adjudicated')][:budget]
+    for j, ob in failed:
+        if hasattr(j, '_adjudicated'):
+            adj[id(j)] = j._adjudicated
+    for (j, ob), res in zip(todo, pmap(lambda jo: jo[0].adjudicate(), todo, workers=8)):
         adj[id(j)] = res
-    for j, ob in failed[budget:]:
+    for j, ob in [x for x in failed if id(x[0]) not in adj]:
         rec = {'property': check.pid, 'obligation': ob.name, 'function': ob.function, 'source': ob.loc,
                'verifier_output': ob.detail, 'contract': ob.text, 'confirmed': False,
                'note': 'native replay budget of this run exhausted (%d failed obligations); see the replayed ones' % len(failed)}
